@@ -29,12 +29,39 @@ func r5hash(c *core.Ctx, rov *core.Fn, cc *ast.CaseClause) {
 	}
 	blk := &ast.BlockStmt{List: cc.Body}
 	var loop *ast.ForStmt
-	core.Inspect(blk, func(m ast.Node) bool {
-		if f, ok := m.(*ast.ForStmt); ok && loop == nil {
-			loop = f
-		}
-		return loop == nil
-	})
+	findLoop := func(root ast.Node) {
+		core.Inspect(root, func(m ast.Node) bool {
+			if f, ok := m.(*ast.ForStmt); ok && loop == nil && f.Cond != nil {
+				loop = f
+			}
+			return loop == nil
+		})
+	}
+	findLoop(blk)
+	if loop == nil {
+		// the whole case may have been moved into a helper of readObjectValue: the
+		// analysis then runs on that helper (its graph, its body)
+		core.Inspect(blk, func(m ast.Node) bool {
+			call, ok := m.(*ast.CallExpr)
+			if !ok || loop != nil {
+				return true
+			}
+			f := core.CalleeFunc(info, call)
+			if f == nil || f.Pkg() == nil || !strings.HasSuffix(f.Pkg().Path(), pkg) || e.Opaque(f) {
+				return true
+			}
+			h := c.FnOf(f)
+			if h == nil || h.Decl.Body == nil {
+				return true
+			}
+			findLoop(h.Decl.Body)
+			if loop != nil {
+				g = cfgq.Of(c.Program, h)
+				blk = h.Decl.Body
+			}
+			return true
+		})
+	}
 	if loop == nil || loop.Cond == nil {
 		c.Undecidedf("R5.chunk", "hash/loop", cc.Pos(), "no counting loop in the hash case")
 		return
